@@ -7,6 +7,8 @@ C05: for every part class that derives its structure from its signature, the str
 instance of the first candidate type that accepts the record and raises RuntimeError exactly when none does."""
 from __future__ import annotations
 
+import ast
+
 from pyvc import term as tm
 from pyvc.term import INT, BOOL, STR
 from pyvc.values import VT, VObj, VNone, NONE, VTuple, VList, VDict, VClass
@@ -102,6 +104,7 @@ class PartStructure(Contract):
 
 
 class CharLoop(LoopSpec):
+    kind = ast.For
     def __init__(self, con):
         self.con = con
 
